@@ -313,7 +313,19 @@ func (f *Forward) exchange(ctx context.Context, qCtx *query_context.Context, us 
 			}
 			return r, nil
 		case <-ctx.Done():
-			return nil, context.Cause(ctx)
+			// Both cases can be ready. A NOERROR or NXDOMAIN reply that arrived
+			// before ctx was done is still the answer.
+			for {
+				select {
+				case res := <-resChan:
+					if res.err == nil && (res.r.Rcode == dns.RcodeSuccess || res.r.Rcode == dns.RcodeNameError) {
+						return res.r, nil
+					}
+					continue
+				default:
+				}
+				return nil, context.Cause(ctx)
+			}
 		}
 	}
 	return nil, errors.New("all upstream servers failed")
